@@ -139,6 +139,38 @@ def reference(desc, role, seq):
             return None, [], None
         bad = [i for i, x in enumerate(aas) if x != want[i]]
         return Fraction(-len(bad)), [cl(i) for i in bad], not bad
+    if name in ("MaximizeCAI", "AvoidRareCodons"):
+        # codon-wise reference straight from the usage table (the species' table of the sandbox shim,
+        # or the user's): MaximizeCAI = sum over codons of log f(codon) - log max f(synonyms), a zero
+        # frequency reading as 0.001; AvoidRareCodons = sum over codons rarer than min_frequency of (frequency - min_frequency)
+        import math
+        from .specs import table_from_desc
+        if kw.get("codon_usage_table") is not None:
+            usage = table_from_desc(kw["codon_usage_table"])
+        else:
+            import python_codon_tables as pct
+            usage = pct.get_codons_table(kw["species"])
+        usage = {aa: cf for aa, cf in usage.items() if len(aa) == 1}
+        aa_of = {c: aa for aa, cf in usage.items() for c in cf}
+        sub = seq[a:b] if st != -1 else rcs(seq[a:b])
+        if len(sub) % 3:
+            return None, [], None
+        cods = [sub[i:i + 3] for i in range(0, len(sub), 3)]
+
+        def cl(i):
+            return set(range(a + 3 * i, a + 3 * i + 3)) if st != -1 else set(range(b - 3 * i - 3, b - 3 * i))
+        if name == "AvoidRareCodons":
+            mf = q(kw["min_frequency"])
+            bad = [i for i, c in enumerate(cods) if q(usage[aa_of[c]][c]) < mf]
+            return sum((q(usage[aa_of[cods[i]]][cods[i]]) - mf for i in bad), Fraction(0)), [cl(i) for i in bad], not bad
+        tot, bad = 0.0, []
+        for i, c in enumerate(cods):
+            f = float(usage[aa_of[c]][c]) or 0.001
+            fmax = max(float(x) for x in usage[aa_of[c]].values())
+            tot += math.log(f) - math.log(fmax)
+            if f < fmax:
+                bad.append(i)
+        return Fraction(repr(tot)), [cl(i) for i in bad], not bad
     if name == "UniquifyAllKmers":
         k = kw["k"]
         ref = kw.get("reference")
